@@ -35,8 +35,10 @@ Obl(e) ==
          <<"truncated-id-is-last-byte", e.trunc = e.sha_pub[32]>>,
          <<"rsa-key-serialized-as-pss-spki", e.kind \in {"t2", "t3"} => e.pub = SpkiPss(e.n, e.e)>> >>
     [] e.op = "NameKey" -> <<
-         <<"encap-key-encoding", e.marshal = EncEncap(e.fields)>>,
-         <<"name-key-id-is-sha256-of-encoding", e.name_key_id = e.sha_marshal>> >>
+         <<"well-formed-name-key-decodes", e.decoded>>,
+         <<"encap-key-encoding", e.decoded => e.marshal = EncEncap(e.fields)>>,
+         <<"decoded-name-key-re-encodes-to-what-was-received", e.decoded => e.marshal = e.orig>>,
+         <<"name-key-id-is-sha256-of-encoding", e.decoded => e.name_key_id = e.sha_marshal>> >>
     [] OTHER -> << <<"unknown-event", FALSE>> >>
 
 Failed(e) == LET o == Obl(e) IN {o[i][1] : i \in {j \in 1..Len(o) : ~o[j][2]}}
